@@ -52,7 +52,7 @@ type c04Case struct {
 func init() {
 	engine.Register(&engine.Check{
 		ID: "C04", Level: "model_checking",
-		Rule:   "states = decision points of a reference WKB/EWKB reader model (byte order, type word, SRID, counts per level, coordinate blocks, truncation, trailing bytes); DFS over all field-choice sequences with <=3 (quick) / <=4 (thorough) non-default choices, <=14 fields, for WKB, WKB-NaN and EWKB under limit configurations {-1,0,2}^3 (quick) / {-1,0,1,2}^3 (thorough); every generated string is decoded by Unmarshal, hex Decode and Scan and compared with the model verdict OK(geometry)/TooLarge{level,n,limit}/Error; forged counts are tried in ascending magnitude with the heap-allocation delta measured around each decode; plus a role-blind sweep (every prefix, every byte x 5 values, every 4-byte word x count menu) of every corpus encoding under enabled limits, and a nesting-depth family in a sacrificial subprocess Also: valid encodings with 100..4000 (thorough 16000) one-to-three-position rings / lines / points / polygons / collection members decoded with the allocation measured (must stay additive in the input length); an SRID word on every kind at every nesting level, generation starting from a collection / multipolygon / multilinestring as outermost kind, and intact encodings with one coordinate array of 2^k+1 positions (k=11..16) decoded, re-encoded and decoded again.",
+		Rule:   "states = decision points of a reference WKB/EWKB reader model (byte order, type word, SRID, counts per level, coordinate blocks, truncation, trailing bytes); DFS over all field-choice sequences with <=3 (quick) / <=4 (thorough) non-default choices, <=14 fields, for WKB, WKB-NaN and EWKB under limit configurations {-1,0,2}^3 (quick) / {-1,0,1,2}^3 (thorough); every generated string is decoded by Unmarshal, hex Decode and Scan and compared with the model verdict OK(geometry)/TooLarge{level,n,limit}/Error (an input the model rejects may be accepted by a more liberal decoder if the result is well formed and canonical; an input the model accepts must be accepted when it is the standard encoding); forged counts are tried in ascending magnitude with the heap-allocation delta measured around each decode; plus a role-blind sweep (every prefix, every byte x 5 values, every 4-byte word x count menu) of every corpus encoding under enabled limits, and a nesting-depth family in a sacrificial subprocess Also: valid encodings with 100..4000 (thorough 16000) one-to-three-position rings / lines / points / polygons / collection members decoded with the allocation measured (must stay additive in the input length); an SRID word on every kind at every nesting level, generation starting from a collection / multipolygon / multilinestring as outermost kind, and intact encodings with one coordinate array of 2^k+1 positions (k=11..16) decoded, re-encoded and decoded again.",
 		Run:    c04Run,
 		Replay: func(c *engine.Ctx, kind string, raw json.RawMessage) { c04Exec(c, decodeCase[c04Case](raw)) },
 		Assumptions: []string{
@@ -545,8 +545,23 @@ func c04Check(c *engine.Ctx, cs c04Case, b []byte, model *ref.G, v verdict, meas
 	switch v.kind {
 	case vErr:
 		if err == nil {
-			fail("accepted-invalid", "decoder accepted an input the format model rejects")
-			return
+			// The property does not say which byte strings must be turned down (beyond counts over
+			// their limits); it says what an ACCEPTED result must be: well formed, and canonical
+			// under re-encoding. A decoder more liberal than the format model is held to that.
+			if t == nil || isNilT(t) {
+				fail("accepted-invalid/nil", "decoder returned neither an error nor a geometry for an input the format model rejects")
+				return
+			}
+			if werr := ref.WellFormed(t); werr != nil {
+				fail("accepted-invalid/ill-formed", "decoder accepted an input the format model rejects, and the result is not well formed: "+werr.Error())
+				return
+			}
+			if d := c04Canonical(t, cs); d != "" {
+				fail("accepted-invalid/not-canonical", "decoder accepted an input the format model rejects, and the result is not canonical: "+d)
+				return
+			}
+			c.Count("accepted_beyond_model", 1)
+			break
 		}
 		c.Count("verdict_error", 1)
 	case vTooLarge:
@@ -562,8 +577,16 @@ func c04Check(c *engine.Ctx, cs c04Case, b []byte, model *ref.G, v verdict, meas
 		c.Count("verdict_too_large", 1)
 	case vOK:
 		if err != nil {
-			fail("rejected-valid", "decoder rejected a valid input: "+err.Error())
-			return
+			// only the standard encodings MUST decode (the reference encoder's bytes, either byte
+			// order); a decoder stricter than the format model about other spellings of the same
+			// geometry (mixed byte orders, redundant SRID words) stays within the property
+			canonical := bytes.Equal(b, ref.EncodeWKB(model, false, cs.Ext)) || bytes.Equal(b, ref.EncodeWKB(model, true, cs.Ext))
+			if canonical {
+				fail("rejected-valid", "decoder rejected the standard encoding of a geometry: "+err.Error())
+				return
+			}
+			c.Count("rejected_nonstandard_spelling", 1)
+			break
 		}
 		if werr := ref.WellFormed(t); werr != nil {
 			fail("ill-formed", werr.Error())
